@@ -104,7 +104,7 @@ def run_inproc(files, flags, *, format_command=None, block_black=False, pyprojec
                         sys.modules[mod.__name__] = mod
                         registered.append(mod.__name__)
                         try:
-                            exec(compile(fn.read_text("utf-8"), str(fn), "exec"), g)
+                            exec(compile(fn.read_text("utf-8-sig"), str(fn), "exec"), g)
                         except BaseException as e:  # noqa
                             res["module_exc"].append((name, _summ_exc(e)))
                             if "R" in g:
@@ -179,7 +179,7 @@ def run_inproc(files, flags, *, format_command=None, block_black=False, pyprojec
                     finally:
                         _rc.format_code, _rc.enforce_formatting = saved
                     with open(f.filename, encoding="utf-8", newline="") as fh:   # no newline translation (as SourceFile.new_code)
-                        res["read_text"][nm] = fh.read()
+                        res["read_text"][nm] = fh.read().removeprefix("\ufeff")     # the byte order mark is not part of the text that is edited
                 rec.fix_all()
             except BaseException as e:  # noqa
                 res["session_exc"] = _summ_exc(e)
